@@ -103,10 +103,128 @@ theorem dispatch (k : Str) (hk : documentedNames.contains k = true) : ∃ kind a
   | none => simp [h] at this
   | some p => exact ⟨p.1, p.2, rfl⟩
 
+/-! ## literals in operand position are inert -/
+
+theorem checkList_literals (xs : List Json) (h : ∀ x ∈ xs, isOperation x = false) : checkList xs = true := by
+  induction xs with
+  | nil => rfl
+  | cons x xs ih =>
+    simp only [checkList, Bool.and_eq_true]
+    exact ⟨check_literal x (h x List.mem_cons_self), ih (fun y hy => h y (List.mem_cons_of_mem _ hy))⟩
+
+/-- a list of literal operands evaluates to itself: no element is interpreted, nothing is logged -/
+theorem runList_literals (xs : List Json) (d : Json) (h : ∀ x ∈ xs, isOperation x = false) :
+    runList xs d = ⟨[], .ok xs⟩ := by
+  induction xs with
+  | nil => rfl
+  | cons x xs ih =>
+    simp only [runList]
+    rw [run_literal x d (h x List.mem_cons_self), ih (fun y hy => h y (List.mem_cons_of_mem _ hy))]
+    rfl
+
+/-- **Literal operands are inert (eager operators).** If every operand of an eager operator is a literal (a
+non-operation: in particular any array, also one whose elements look like operations), the operator's
+implementation receives exactly those values: `{k: [v₁ … vₙ]}` is `k`'s function applied to `[v₁ … vₙ]`. -/
+theorem literal_inert (k : Str) (ar : Arity) (xs : List Json) (d : Json)
+    (hk : lookupOp k = some (.eager, ar)) (h : ∀ x ∈ xs, isOperation x = false) :
+    run (.obj [(k, .arr xs)]) d = execEager k xs := by
+  conv => lhs; unfold run
+  simp only [hk, runList_literals xs d h]
+  exact M.ext (by simp) (by simp)
+
+/-- the same through `apply`: the count is validated, then the operator sees the literals themselves -/
+theorem literal_inert_apply (k : Str) (ar : Arity) (xs : List Json) (d : Json)
+    (hk : lookupOp k = some (.eager, ar)) (h : ∀ x ∈ xs, isOperation x = false) :
+    apply (.obj [(k, .arr xs)]) d = if ar.isValidLen xs.length then execEager k xs else M.err := by
+  unfold apply
+  rw [literal_inert k ar xs d hk h]
+  have : check (.obj [(k, .arr xs)]) = ar.isValidLen xs.length := by
+    unfold check; simp [hk, checkList_literals xs h]
+  rw [this]
+
+/-- **… and data operators** (`var`, `missing`, `missing_some`) -/
+theorem literal_inert_data (k : Str) (ar : Arity) (xs : List Json) (d : Json)
+    (hk : lookupOp k = some (.data, ar)) (h : ∀ x ∈ xs, isOperation x = false) :
+    run (.obj [(k, .arr xs)]) d = execData k d xs := by
+  conv => lhs; unfold run
+  simp only [hk, runList_literals xs d h]
+  exact M.ext (by simp) (by simp)
+
+/-- an array literal as an operand reaches the operator as the value it is, whatever it contains -/
+theorem array_operand_inert (xs : List Json) (d : Json) : run (.arr xs) d = ⟨[], .ok (.arr xs)⟩ :=
+  run_literal _ _ rfl
+
+/-- instance: `merge` of one array literal returns the array unchanged, even when its elements are operation-shaped -/
+theorem merge_array_literal (xs : List Json) (d : Json) :
+    apply (.obj [("merge".toList, .arr [.arr xs])]) d = ⟨[], .ok (.arr xs)⟩ := by
+  have hk : lookupOp "merge".toList = some (.eager, .any) := by decide
+  rw [literal_inert_apply _ _ _ d hk (by intro x hx; simp at hx; subst hx; rfl)]
+  simp [Arity.isValidLen, execEager, ArrOp.merge]
+
+/-! ## no prefix, case or whitespace variants -/
+
+/-- **Exact match.** Being an operation is decided by exact membership of the key in the list of documented names —
+nothing else about the key (a recognised prefix, its lower-cased or trimmed form) matters. -/
+theorem isOperation_single (k : Str) (v : Json) : isOperation (.obj [(k, v)]) = documentedNames.contains k := rfl
+
+/-- a single-key object whose key is not *exactly* a documented name is a literal -/
+theorem unknown_key_literal (k : Str) (v d : Json) (h : documentedNames.contains k = false) :
+    apply (.obj [(k, v)]) d = ⟨[], .ok (.obj [(k, v)])⟩ :=
+  literal_id _ _ h
+
+/-- no documented name contains a whitespace or an upper-case character … -/
+theorem names_no_ws_upper : documentedNames.all (fun k => k.all (fun c => !c.isWhitespace && !c.isUpper)) = true := by
+  decide
+
+/-- … hence **no key with surrounding (or inner) whitespace and no key with a capital letter is recognised**: every
+padded variant `" var"`, `"var "`, `"\tif"` and every case variant `"Var"`, `"IF"`, `"Max"` of any name is a literal. -/
+theorem no_case_ws_variant (k : Str) (v d : Json) (h : k.any (fun c => c.isWhitespace || c.isUpper) = true) :
+    apply (.obj [(k, v)]) d = ⟨[], .ok (.obj [(k, v)])⟩ := by
+  apply unknown_key_literal
+  rw [Bool.eq_false_iff]
+  intro hc
+  have hm : k ∈ documentedNames := by simpa using hc
+  have := List.all_eq_true.mp names_no_ws_upper k hm
+  obtain ⟨c, hcm, hc'⟩ := List.any_eq_true.mp h
+  have := List.all_eq_true.mp this c hcm
+  revert this hc'
+  cases c.isWhitespace <;> cases c.isUpper <;> simp
+
+/-- padding a documented name with a space (either side), or appending/prepending *any* character `c`, gives a
+recognised key only when the result is itself, exactly, a documented name (e.g. `"!" ++ "="`, `"<" ++ "="`) -/
+theorem no_prefix_case_ws (k' : Str) (v : Json) :
+    isOperation (.obj [(k', v)]) = true ↔ k' ∈ documentedNames := by
+  simp [isOperation]
+
+/-- the extensions of documented names by one character that are recognised are exactly these six; all other
+`k ++ [c]` are literals -/
+theorem one_char_extensions (k : Str) (c : Char) (hk : k ∈ documentedNames) :
+    documentedNames.contains (k ++ [c]) = true ↔
+      (k ++ [c]) ∈ ["===", "!=", "!==", "!!", "<=", ">="].map String.toList := by
+  simp only [documentedNames, List.map_cons, List.map_nil, List.mem_cons, List.not_mem_nil, or_false] at hk
+  rcases hk with h | h | h | h | h | h | h | h | h | h | h | h | h | h | h | h | h | h | h | h | h | h | h | h | h | h | h | h | h | h | h | h | h | h | h <;>
+    subst h <;> simp [documentedNames]
+
 /-! non-vacuity -/
 example : isOperation (.obj [("var ".toList, .str "a".toList)]) = false := by decide
 example : isOperation (.obj [("VAR".toList, .null)]) = false := by decide
 example : isOperation (.obj [("if".toList, .null), ("note".toList, .null)]) = false := by decide
 example : isOperation (.obj [("?:".toList, .arr [])]) = true := by decide
+
+/-- `literal_inert`: the hypotheses are met by operands that *look like* operations nested in literals -/
+example : lookupOp "cat".toList = some (.eager, .any) := by decide
+example : ∀ x ∈ [Json.arr [.obj [("var".toList, .str "a".toList)]], .obj [("var".toList, .null), ("x".toList, .null)]],
+    isOperation x = false := by decide
+example : apply (.obj [("merge".toList, .arr [.arr [.obj [("log".toList, .str "LEAK".toList)]]])]) .null
+    = ⟨[], .ok (.arr [.obj [("log".toList, .str "LEAK".toList)]])⟩ := by decide +kernel
+/-- `no_case_ws_variant`: the hypothesis is met by padded and capitalised names -/
+example : (" var".toList.any fun c => c.isWhitespace || c.isUpper) = true ∧ ("var\t".toList.any fun c => c.isWhitespace || c.isUpper) = true
+    ∧ ("Var".toList.any fun c => c.isWhitespace || c.isUpper) = true ∧ ("IF".toList.any fun c => c.isWhitespace || c.isUpper) = true := by decide
+/-- prefixes and extensions of names that are not themselves names are literals -/
+example : isOperation (.obj [("va".toList, .null)]) = false ∧ isOperation (.obj [("vars".toList, .null)]) = false
+    ∧ isOperation (.obj [("=".toList, .null)]) = false ∧ isOperation (.obj [("====".toList, .null)]) = false
+    ∧ isOperation (.obj [("missing_".toList, .null)]) = false ∧ isOperation (.obj [("".toList, .null)]) = false := by decide
+/-- … and those that are names are dispatched as what they are -/
+example : isOperation (.obj [("!".toList, .null)]) = true ∧ isOperation (.obj [("!=".toList, .null)]) = true ∧ isOperation (.obj [("!==".toList, .null)]) = true := by decide
 
 end JL.Props.C02
